@@ -1,7 +1,7 @@
 //! Everything that touches linfa: build the dataset, fit, predict, and copy the public tree
 //! (`root_node`, `children`, `split`, `prediction`, `depth`, `is_leaf`) into plain data.
 
-use crate::case::{Case, LabelKind, Layout, WEIGHTS};
+use crate::case::{Case, LabelKind, Layout};
 use linfa::prelude::*;
 use linfa::{Float, Label};
 use linfa_trees::{DecisionTree, SplitQuality, TreeNode};
@@ -128,6 +128,28 @@ fn predict_any<F: Float, L: Label + Default>(tree: &DecisionTree<F, L>, b: &Back
     }
 }
 
+/// signature of the one recognised fit panic: `assert!(n_samples > 0.0)` inside the impurity helpers,
+/// reached when inexact f32 weight sums leave a residue on a side that holds no sample any more
+pub const SIG_RESIDUE_PANIC: &str = "fit:panic-empty-side-weight-residue";
+
+/// `obs.call("fit", ..)` with one narrow branch: every other panic keeps the signature `panic:fit`.
+fn call_fit<T>(c: &Case, obs: &mut Obs, f: impl FnOnce() -> T) -> Option<T> {
+    match vengine::guard(f) {
+        Ok(v) => Some(v),
+        Err(m) => {
+            if m.contains("n_samples > 0.0") && !c.weights_exact() {
+                obs.fail(
+                    SIG_RESIDUE_PANIC,
+                    format!("fit panicked ({m}): the sweep evaluated a split whose one side holds no sample, only the rounding residue of the f32 weight sums (min_weight_leaf {} vs weights of scale {:e})", c.min_weight_leaf, c.scale()),
+                );
+            } else {
+                obs.fail("panic:fit", format!("panicked: {m}"));
+            }
+            None
+        }
+    }
+}
+
 fn run_typed<F: Float, L: Label + Default>(
     c: &Case,
     obs: &mut Obs,
@@ -142,10 +164,7 @@ fn run_typed<F: Float, L: Label + Default>(
     let table: Vec<L> = (0..k).map(label_of).collect();
     let id_of = |l: &L| -> i16 { table.iter().position(|t| t == l).map(|i| i as i16).unwrap_or(UNSEEN) };
     let y: Array1<L> = Array1::from_shape_fn(n, |i| label_of(c.y.get(i).copied().unwrap_or(0)));
-    let w: Option<Array1<f32>> = c
-        .weights
-        .as_ref()
-        .map(|ix| Array1::from_shape_fn(n, |i| WEIGHTS[(ix.get(i).copied().unwrap_or(1) as usize) % 4]));
+    let w: Option<Array1<f32>> = c.weights.as_ref().map(|_| Array1::from(c.w32()));
     let params = DecisionTree::<F, L>::params()
         .split_quality(if c.entropy { SplitQuality::Entropy } else { SplitQuality::Gini })
         .max_depth(c.max_depth.map(|d| d as usize))
@@ -164,7 +183,7 @@ fn run_typed<F: Float, L: Label + Default>(
             if let Some(w) = &w {
                 ds = ds.with_weights(w.clone());
             }
-            obs.call("fit", || params.fit(&ds))?
+            call_fit(c, obs, || params.fit(&ds))?
         }
         // borrowed records and targets: `DatasetView`
         _ => {
@@ -175,7 +194,7 @@ fn run_typed<F: Float, L: Label + Default>(
             if let Some(w) = &w {
                 ds = ds.with_weights(w.clone());
             }
-            obs.call("fit", || params.fit(&ds))?
+            call_fit(c, obs, || params.fit(&ds))?
         }
     };
     let tree = match fitted {
